@@ -600,6 +600,72 @@ def char_class(P, cb):
     return acc
 
 
+def rule_loader_remainders(ctx):
+    """R3 (loader): a line of the database is either consumed completely by its line parser or rejected: wherever Database::from_str
+    calls a `parse_*` line parser and uses the parsed value, the unparsed remainder (first component of the nom result) is looked at
+    too - otherwise the tail of a line the grammar does not cover is silently dropped and the text `loads` with entries missing"""
+    P = ctx.program
+    b = [x for x in P.bodies.values() if x.name == "from_str" and x.kind == "AssocFn" and (x.impl_self or "").endswith("db::Database")]
+    if len(b) != 1:
+        ctx.cannot("R3", "loader:remainders", "Database::from_str not found")
+        return
+    b = b[0]
+    S = T.Slicer(b, P)
+    calls = [(blk, t) for blk, t in b.calls() if callee_of(t).startswith("huginn_net_db::db_parse::parse_") and "IResult" in b.local_ty(t["dest"]["l"]) or
+             (callee_of(t).startswith("huginn_net_db::db_parse::parse_") and "(&str," in b.local_ty(t["dest"]["l"]))]
+    # every term the function computes
+    terms = []
+    for i, j, s in b.iter_stmts():
+        if s["k"] == "assign":
+            terms.append(S.rvalue(s["r"], i, j))
+    for blk, t in b.calls():
+        terms.extend(Q.call_args(b, S, blk, t))
+    for blk in sorted(b.reachable):
+        tt = b.blocks[blk]["t"]
+        if tt["k"] == "switch":
+            terms.append(S.operand(tt["discr"], blk, len(b.blocks[blk]["s"])))
+
+    def reaches(x, cblk):
+        x = T.strip(x)
+        while True:
+            if x[0] == "call" and x[3] == cblk:
+                return True
+            if x[0] in ("downcast", "field"):
+                x = T.strip(x[1])
+            elif x[0] == "call" and x[1].endswith(("::branch", "::map_err", "::ok", "::unwrap", "::expect")) and x[2]:
+                x = T.strip(x[2][0])
+            elif x[0] in ("ref", "deref", "cast"):
+                x = T.strip(x[2] if x[0] in ("ref", "cast") else x[1])
+            else:
+                return False
+
+    def is_remainder(x, cblk):
+        # ((<result> as Ok|Continue).0).0
+        if x[0] != "field" or x[2] not in (0, "0"):
+            return False
+        tup = T.strip(x[1])
+        if tup[0] != "field" or tup[2] not in (0, "0"):
+            return False
+        dc = T.strip(tup[1])
+        return dc[0] == "downcast" and dc[2] in ("Ok", "Continue") and reaches(dc, cblk)
+    n = 0
+    for cblk, t in calls:
+        name = callee_of(t).rsplit("::", 1)[-1]
+        n += 1
+        looked = any(is_remainder(x, cblk) for tm in terms for x in T.walk(tm))
+        # a grammar that ends in `rest` consumes the line whatever it contains
+        try:
+            g = G.parser_grammar(P, P.bodies[callee_of(t)])
+            fl = G.flatten(P, g) if g[0] == "seq" else []
+            ends_rest = bool(fl) and (fl[-1] == ("class", "rest") or (fl[-1][0] == "opt" and "rest" in str(fl[-1])) or "rest" in str(g[1][-1] if g[0] == "seq" else ""))
+        except (AnchorMissing, KeyError, IndexError):
+            ends_rest = False
+        ctx.check(looked or ends_rest, "R3", "loader:remainder:%s" % name, "the rest of the line after %s is %s" % (name, "checked" if looked else "consumed by the grammar"),
+                  "Database::from_str uses the value %s parsed from a line and never looks at what %s left unparsed: a line whose tail the grammar does not cover loads "
+                  "with that tail silently dropped" % (name, name), ctx.loc(b, cblk))
+    ctx.floor("R3", "line parsers called by Database::from_str", n, 4)
+
+
 def rule_header_name_class(ctx):
     """R3: every header name the printer can emit for a bundled-style signature is read back: the name class of the header parser contains
     all ASCII letters, digits and `-` (Content-MD5, P3P, X-Forwarded-For ..) and stops at the separators of the signature syntax"""
@@ -632,6 +698,7 @@ def rule_header_name_class(ctx):
 
 
 def run(ctx):
+    rule_loader_remainders(ctx)
     rule_header_name_class(ctx)
     rule_R1_R2(ctx)
     rule_R1_composite(ctx)
